@@ -33,9 +33,9 @@ type ast struct {
 	kids []*ast
 }
 
-func atom(s string) *ast           { return &ast{k: kAtom, text: s} }
+func atom(s string) *ast            { return &ast{k: kAtom, text: s} }
 func bin(op string, l, r *ast) *ast { return &ast{k: kBin, text: op, kids: []*ast{l, r}} }
-func paren(e *ast) *ast            { return &ast{k: kParen, kids: []*ast{e}} }
+func paren(e *ast) *ast             { return &ast{k: kParen, kids: []*ast{e}} }
 func call(n string, a ...*ast) *ast { return &ast{k: kCall, text: n, kids: a} }
 
 // un builds a unary node; the operand must be a primary, anything else is parenthesised.
@@ -138,16 +138,16 @@ func layout(r *hx.Rng, toks []string, mode int) string {
 // ---------------------------------------------------------------------------------------------------------------
 
 var (
-	numAtoms  = []string{"0", "1", "2", "3", "7", "10", "2.5", "0.5", "100", "1e2", "1e-2", "2.5e-1", "$x", "$y", "$z", "$h", "$n", "$foo.bar", "$a_1", "$sp"}
-	strAtoms  = []string{"foo", "bar", "yes", "no", "abc", "x1", "true", "false", "$undefined"}
-	arith     = []string{"+", "-", "*", "/", "%", "^", "+", "-", "*", "/"}
-	cmpOps    = []string{"==", "!=", "<", "<=", ">", ">="}
-	logic     = []string{"&&", "||"}
-	allBin    = []string{"||", "&&", "==", "!=", "<", "<=", ">", ">=", "+", "-", "*", "/", "%", "^"}
-	fn1       = []string{"abs", "sqrt", "floor", "ceil", "round", "cbrt", "exp", "exp2", "log", "log10", "log1p"}
-	fnN       = []string{"max", "min"}
-	signs     = []string{"-", "+", "-"}
-	soupToks  = []string{"(", ")", "+", "-", "*", "/", "%", "^", "!", "!=", "==", "<", "<=", ">", ">=", "&&", "||", ",", "$", "$x", "1", "2", "2e", "1e-2", "2e-", "e", "=", "&", "|", "abs", "max", "if", "foo", " ", "\t", "\n", "\r", "\v", "\f", "\xc2\xa0", "\xc2\x85", "\xe2\x80\x83", "\xe3\x80\x80", "\xe1\x9a\x80", "\xe2\x81\x9f", "\xe2\x80", "\xc2", "\x00", "\xff", ".", "#", "_", "@", "[", "]", ";", "0", "9e", "$1", "$_", "$a.b#c"}
+	numAtoms = []string{"0", "1", "2", "3", "7", "10", "2.5", "0.5", "100", "1e2", "1e-2", "2.5e-1", "$x", "$y", "$z", "$h", "$n", "$foo.bar", "$a_1", "$sp"}
+	strAtoms = []string{"foo", "bar", "yes", "no", "abc", "x1", "true", "false", "$undefined"}
+	arith    = []string{"+", "-", "*", "/", "%", "^", "+", "-", "*", "/"}
+	cmpOps   = []string{"==", "!=", "<", "<=", ">", ">="}
+	logic    = []string{"&&", "||"}
+	allBin   = []string{"||", "&&", "==", "!=", "<", "<=", ">", ">=", "+", "-", "*", "/", "%", "^"}
+	fn1      = []string{"abs", "sqrt", "floor", "ceil", "round", "cbrt", "exp", "exp2", "log", "log10", "log1p"}
+	fnN      = []string{"max", "min"}
+	signs    = []string{"-", "+", "-"}
+	soupToks = []string{"(", ")", "+", "-", "*", "/", "%", "^", "!", "!=", "==", "<", "<=", ">", ">=", "&&", "||", ",", "$", "$x", "1", "2", "2e", "1e-2", "2e-", "e", "=", "&", "|", "abs", "max", "if", "foo", " ", "\t", "\n", "\r", "\v", "\f", "\xc2\xa0", "\xc2\x85", "\xe2\x80\x83", "\xe3\x80\x80", "\xe1\x9a\x80", "\xe2\x81\x9f", "\xe2\x80", "\xc2", "\x00", "\xff", ".", "#", "_", "@", "[", "]", ";", "0", "9e", "$1", "$_", "$a.b#c"}
 )
 
 func genNum(r *hx.Rng, d int) *ast {
